@@ -391,4 +391,13 @@ class Check:
         (VERIF / "evidence" / f"{self.prop}.json").write_text(json.dumps(ev, indent=1, default=str) + "\n")
         self.log("exit", rc, f"evaluations={cov['evaluations']} nontrivial={cov['distinct_nontrivial']} "
                  f"obligations={cov['discharged']}/{cov['obligations']}")
+        if rc == 0:
+            # disk is limited: after a clean run drop the generated case files and their compiled forms
+            # (thorough tiers write gigabytes); after a violation they stay for inspection
+            for f in self.work.glob("*"):
+                if f.is_file() and (f.suffix in (".vo", ".vos", ".vok", ".glob") or re.fullmatch(r".*_\d+\.v", f.name)):
+                    try:
+                        f.unlink()
+                    except OSError:
+                        pass
         return rc
